@@ -524,3 +524,80 @@ def check_documented_defaults(chk, ix):
                                  "/".join(fixed), dest, doc_value, dest, eff, src), file=mod.relpath, line=1))
     if n < 6:
         raise AnalysisError("anchor drift: only %d switch pairs with a documented default found (8 confirmed)" % n)
+
+
+WHAT["Z10"] = "the command-line defines are merged into the userdata before anything that reads the userdata is set up (reporters, formatters)"
+WHAT["Z11"] = "every Configuration gets its own option parser: setup_parser keeps no parser in module-level state"
+
+
+def check_userdata_before_consumers(chk, ix):
+    """Z10 (must-precede over the resolved call graph): in Configuration.__init__ the call of setup_userdata() comes before
+    every call of a Configuration method that (transitively) hands the configuration to a reporter / formatter
+    constructor or reads self.userdata."""
+    chk.rule("Z10", WHAT["Z10"])
+    cc = ix.cls("behave.configuration:Configuration")
+    init = cc.lookup("__init__")
+
+    def reads_userdata(fn, seen=None):
+        seen = seen or set()
+        if fn.fullname in seen:
+            return False
+        seen.add(fn.fullname)
+        for n in ast.walk(fn.node):
+            if isinstance(n, ast.Attribute) and n.attr == "userdata" and isinstance(n.ctx, ast.Load) and unparse(n.value) == "self":
+                return True
+            if isinstance(n, ast.Call):
+                # the configuration object handed to something that is constructed: reporters and formatters read config.userdata
+                if any(isinstance(a, ast.Name) and a.id == "self" for a in n.args) and unparse(n.func)[:1].isupper():
+                    return True
+                if isinstance(n.func, ast.Attribute) and unparse(n.func.value) == "self":
+                    callee = cc.lookup(n.func.attr)
+                    if callee is not None and callee.kind not in ("property",) and reads_userdata(callee, seen):
+                        return True
+        return False
+    order = []
+    for stmt in init.node.body:
+        for n in ast.walk(stmt):
+            if isinstance(n, ast.Call) and isinstance(n.func, ast.Attribute) and unparse(n.func.value) == "self":
+                order.append((n.lineno, n.func.attr))
+    order.sort()
+    names = [n for _, n in order]
+    if "setup_userdata" not in names:
+        raise AnalysisError("anchor missing: Configuration.__init__ does not call setup_userdata()")
+    at = names.index("setup_userdata")
+    consumers = []
+    for i, nm in enumerate(names):
+        callee = cc.lookup(nm)
+        if nm in ("setup_userdata", "init", "make_command_args", "make_defaults") or callee is None:
+            continue
+        if reads_userdata(callee):
+            consumers.append((i, nm))
+    if not consumers:
+        raise AnalysisError("anchor drift: no setup step of Configuration.__init__ reads the userdata / constructs reporters")
+    for i, nm in consumers:
+        chk.instance("Z10")
+        if i > at:
+            chk.ok("Z10", {"setup step": nm, "runs": "after setup_userdata()"}, nontrivial_key=nm)
+        else:
+            _fail(chk, "Z10", init, "%s() before setup_userdata()" % nm, "Configuration.__init__ calls %s(), which reads the userdata or constructs reporters / "
+                  "formatters from the configuration, before setup_userdata() has merged the command-line defines: a -D override does not reach it" % nm)
+
+
+def check_parser_is_fresh(chk, ix):
+    """Z11: setup_parser builds a new argparse parser on every call (parser.set_defaults of one Configuration must not be
+    visible to the next)."""
+    chk.rule("Z11", WHAT["Z11"])
+    f = ix.func("behave.configuration:setup_parser")
+    chk.instance("Z11")
+    globals_ = [n for n in ast.walk(f.node) if isinstance(n, (ast.Global, ast.Nonlocal))]
+    ctor_top = [s_ for s_ in f.node.body if any(isinstance(n, ast.Call) and unparse(n.func).endswith("ArgumentParser") for n in ast.walk(s_))
+                and not isinstance(s_, (ast.If, ast.Try, ast.For, ast.While, ast.With))]
+    early = [s_ for s_ in f.node.body if isinstance(s_, ast.If) and any(isinstance(n, ast.Return) for n in ast.walk(s_))]
+    attr_cache = [n for n in ast.walk(f.node) if isinstance(n, ast.Attribute) and isinstance(n.value, ast.Name) and n.value.id == f.name]
+    if not globals_ and ctor_top and not early and not attr_cache:
+        chk.ok("Z11", {"setup_parser": "constructs a new ArgumentParser unconditionally, no global / function-attribute state"}, nontrivial_key="fresh")
+    else:
+        _fail(chk, "Z11", f, "parser kept across calls", "setup_parser %s: defaults installed into the parser by one Configuration (config-file values) stay "
+              "installed for the next Configuration of the same process" % (
+                  "declares module-level state (%s)" % ", ".join(unparse(g) for g in globals_) if globals_ else
+                  "can return before constructing a parser" if early else "does not construct its parser unconditionally"))
